@@ -43,6 +43,8 @@ enum P {
     Or(Box<P>, Box<P>),
     Not(Box<P>),
     Const(bool),
+    /// a boolean column used directly as a predicate
+    BoolCol(usize),
 }
 
 fn col_expr(names: &[Vec<String>], i: usize) -> Expr {
@@ -129,6 +131,7 @@ impl P {
             P::Or(a, b) => Expr::or(a.expr(names), b.expr(names)),
             P::Not(a) => Expr::not(a.expr(names)),
             P::Const(b) => Expr::val(*b),
+            P::BoolCol(c) => col_expr(names, *c),
         }
     }
     fn shape(&self) -> String {
@@ -139,6 +142,7 @@ impl P {
             P::Or(a, b) => format!("Or({},{})", a.shape(), b.shape()),
             P::Not(a) => format!("Not({})", a.shape()),
             P::Const(b) => format!("{b}"),
+            P::BoolCol(_) => "boolcol".into(),
         }
     }
     fn show(&self, names: &[Vec<String>]) -> String {
@@ -161,6 +165,7 @@ impl P {
             P::Or(a, b) => format!("({}) OR ({})", a.show(names), b.show(names)),
             P::Not(a) => format!("NOT ({})", a.show(names)),
             P::Const(b) => format!("{b}"),
+            P::BoolCol(c) => names[*c].join("."),
         }
     }
     fn cols(&self, out: &mut Vec<usize>) {
@@ -175,6 +180,7 @@ impl P {
                 b.cols(out)
             }
             P::Not(a) => a.cols(out),
+            P::BoolCol(c) => out.push(*c),
             P::Const(_) => {}
         }
     }
@@ -233,6 +239,10 @@ fn term(t: &T, row: &[Value]) -> Sc {
 fn eval3(p: &P, row: &[Value]) -> Option<bool> {
     match p {
         P::Const(b) => Some(*b),
+        P::BoolCol(c) => match scalar(&row[*c]) {
+            Sc::Bool(b) => Some(b),
+            _ => None,
+        },
         P::Cmp(op, l, r) => {
             let (a, b) = (term(l, row), term(r, row));
             let ord = match (&a, &b) {
@@ -397,8 +407,12 @@ fn col_types(tier: Tier) -> Vec<ColType> {
         data_type: DataType::text_interval("A".to_string(), "b".to_string()),
         points: ["A", "B", "Z", "b"].iter().map(|s| Value::text(*s)).collect(),
     });
+    out.push(ColType { desc: "bool".into(), kind: "bool", data_type: DataType::boolean(), points: vec![Value::boolean(false), Value::boolean(true)] });
+    // the same set spelled as an enumeration of values (what CASE .. THEN TRUE ELSE FALSE or a cast of {0,1} produce)
+    out.push(ColType { desc: "bool{false,true}".into(), kind: "bool", data_type: DataType::Boolean(Intervals::from_values([false, true])), points: vec![Value::boolean(false), Value::boolean(true)] });
+    out.push(ColType { desc: "bool{true}".into(), kind: "bool", data_type: DataType::boolean_value(true), points: vec![Value::boolean(true)] });
     if tier == Tier::Thorough {
-        out.push(ColType { desc: "bool".into(), kind: "bool", data_type: DataType::boolean(), points: vec![Value::boolean(false), Value::boolean(true)] });
+        out.push(ColType { desc: "option(bool)".into(), kind: "opt-bool", data_type: DataType::optional(DataType::boolean()), points: vec![Value::boolean(false), Value::boolean(true), Value::none()] });
     }
     out
 }
@@ -460,6 +474,9 @@ fn atoms(kinds: &[&'static str], tier: Tier) -> Vec<P> {
         }
         out.push(P::In(c, vec![Value::text("A"), Value::text("b")]));
         out.push(P::In(c, vec![Value::text("Q")]));
+    }
+    for c in (0..kinds.len()).filter(|i| matches!(kinds[*i], "bool" | "opt-bool")) {
+        out.push(P::BoolCol(c));
     }
     out.push(P::Const(true));
     out.push(P::Const(false));
@@ -532,6 +549,7 @@ fn arm_of(p: &P) -> String {
         P::Or(_, _) => "Or".into(),
         P::Not(_) => "Not".into(),
         P::Const(_) => "Const".into(),
+        P::BoolCol(_) => "BoolCol".into(),
     }
 }
 
@@ -721,7 +739,7 @@ enum Work {
 pub fn run(ctx: &Ctx) -> Report {
     let ct = col_types(ctx.tier);
     let numeric: Vec<&ColType> = ct.iter().filter(|c| matches!(c.kind, "int" | "float" | "opt-int" | "opt-float")).collect();
-    let third: Vec<&ColType> = ct.iter().filter(|c| matches!(c.kind, "text" | "opt-int" | "bool")).collect();
+    let third: Vec<&ColType> = ct.iter().filter(|c| matches!(c.kind, "text" | "opt-int" | "bool" | "opt-bool")).collect();
     let mut work: Vec<(String, Work)> = vec![];
     // struct types: (numeric, numeric, third); quick thins the numeric x numeric product
     let step = ctx.tier.pick(9, 3);
